@@ -45,6 +45,7 @@ class Unit:
     tier: str = 'quick'             # 'quick' | 'thorough'
     trusted: list = field(default_factory=list)   # extra trusted-base notes
     ghost_prefix: str = ''           # ghost declarations put at the start of the extracted body (entry values, spec terms)
+    ctor_inits: Optional[list] = None  # constructor: the member-initialiser list of the head is turned into `self->m = e;` for the listed members (rule C-ctor)
     post_pre: str = ''               # C text placed after the pre_extract declarations (types that need them)
     pre_extract: list = field(default_factory=list)  # [dict(src=, anchor=, lower=[rules])]: declarations (enum/struct text) extracted verbatim from /repo and put before the function
     fallback_unwind: Optional[int] = None  # if the code's loop structure no longer matches the loop contracts: complete unwinding bound (configuration-bounded loops only)
@@ -81,6 +82,18 @@ def lowered_body(u, loops=True, tolerant=False):
     still match and, if the loop structure differs, leave the loops without
     contracts (the caller then unwinds them, if the unit allows)."""
     ex = extract.extract_body(u.src, u.anchor, u.occurrence, u.of, u.within)
+    if u.ctor_inits is not None:
+        # member-initialiser list  `: a(x), b(y) {`  ->  self->a = x; self->b = y;
+        head = extract.blank_comments_and_strings(ex['head'])
+        k = head.rfind(')', 0, head.find(':', head.find(')')) + 1) if ':' in head else -1
+        inits = head[head.index(':', head.index(')')) + 1:] if ':' in head else ''
+        stmts = []
+        for m in re.finditer(r'(\w+)\(([^()]*)\)', inits):
+            if m.group(1) in u.ctor_inits:
+                stmts.append('self->%s = %s;' % (m.group(1), m.group(2)))
+        if len(stmts) != len(u.ctor_inits):
+            raise lower.LoweringError('%s: constructor initialiser list has %d of the %d listed members' % (u.name, len(stmts), len(u.ctor_inits)))
+        ex['body'] = '\n'.join(stmts) + '\n' + ex['body']
     body, fired = lower.apply_rules(ex['body'], u.lower, tolerant)
     if u.ghost_prefix:
         body = '/* ghost */ ' + u.ghost_prefix.strip() + '\n' + body
